@@ -371,6 +371,7 @@ fn a_profile(a: &ParentArgs, idx: usize) -> String {
 pub fn drive(a: &ParentArgs) -> RunSummary {
     let (tx, rx) = channel::<Msg>();
     let mut slots: Vec<WorkerSlot> = Vec::new();
+    let mut hangs_killed = 0u32;
     for (pi, (_, _, w)) in a.bins.iter().enumerate() {
         for k in 0..*w {
             let id = slots.len();
@@ -539,8 +540,13 @@ pub fn drive(a: &ParentArgs) -> RunSummary {
         for s in slots.iter_mut() {
             if !s.done && s.current.is_some() && !s.killed_for_hang {
                 let cpu = cpu_seconds(s.child.id()).map(|c| c - s.began_cpu).unwrap_or(0.0);
-                if cpu > a.hang_s || s.began.elapsed().as_secs_f64() > a.hang_s * 15.0 {
+                // once a few runs have been killed at the full limit, the verdict of this batch no
+                // longer depends on later ones (only the first are triaged): do not spend a minute
+                // of CPU on each of hundreds of hanging runs of a broken tree
+                let limit = if hangs_killed >= 4 { a.hang_s / 6.0 } else { a.hang_s };
+                if cpu > limit || s.began.elapsed().as_secs_f64() > limit * 15.0 {
                     s.killed_for_hang = true;
+                    hangs_killed += 1;
                     let _ = s.child.kill();
                 }
             }
@@ -797,9 +803,12 @@ pub fn triage(a: &ParentArgs, sum: &mut RunSummary) -> Report {
     // crashes and hangs first: find the check each died in
     let crashes = std::mem::take(&mut sum.crashes);
     let mut seen_crash = 0;
+    let mut seen_hang = 0u32;
     for (profile, i, sig, hang, k, started_at) in crashes {
         seen_crash += 1;
-        if seen_crash > 8 {
+        seen_hang += hang as u32;
+        // (locating a hang costs up to three times the hang limit in CPU time)
+        if seen_crash > 8 || (hang && seen_hang > 2) {
             *sum.stats.entry("crashes_not_triaged".into()).or_insert(0) += 1;
             continue;
         }
@@ -870,10 +879,40 @@ pub fn triage(a: &ParentArgs, sum: &mut RunSummary) -> Report {
                     rep.lines.push(format!("  class=crash-outside-run profile={} runs {}..={} of stride {} mod {} :: {}", d.profile, start, d.last_e, d.k, w, how));
                 }
             }
-            None => harness_error(&format!(
-                "a worker (profile {}, stride {} mod {}) died after run {} but its whole life {}..={} completes when replayed: not deterministic",
-                d.profile, d.k, w, d.last_e, d.started_at, d.last_e
-            )),
+            None => {
+                // The worker's own fatal-signal handler reported a crash (so it was not killed from
+                // outside), yet neither the run nor the worker's whole life dies again in a fresh
+                // process. Wild machine code (a jump into the middle of an instruction, a store
+                // through a stale register) can depend on bits no replay controls. The crash was
+                // observed once and is reported as such; anything else is a harness error.
+                let name = d.sig.as_deref().and_then(|s| s.split_whitespace().next()).unwrap_or("").to_string();
+                if !["SEGV", "BUS", "ILL", "FPE"].contains(&name.as_str()) {
+                    harness_error(&format!(
+                        "a worker (profile {}, stride {} mod {}) died after run {} (signal line {:?}) but its whole life {}..={} completes when replayed: not deterministic",
+                        d.profile, d.k, w, d.last_e, d.sig, d.started_at, d.last_e
+                    ));
+                }
+                let replay_dir = a.verif_dir.join("replays").join(&a.prop);
+                let _ = std::fs::create_dir_all(&replay_dir);
+                let class = format!("{}-not-reproduced", crash_class(d.sig.as_deref(), None));
+                let body = json!({
+                    "property": a.prop,
+                    "profile": d.profile,
+                    "class": class,
+                    "detail": format!("a worker process died by a fatal signal ({:?}) in or right after run {}; replaying that run alone and the worker's whole life {}..={} in fresh processes completes, so the replay below may not die again", d.sig, d.last_e, d.started_at, d.last_e),
+                    "worker_segment": {"seed": a.seed, "tier": match a.tier { Tier::Quick => "quick", Tier::Thorough => "thorough" }, "k": d.k, "w": w, "start": d.started_at, "until": d.last_e},
+                    "original_signal": d.sig,
+                    "reproduces": false,
+                });
+                let fname = format!("{:016x}.json", fnv(body.to_string().as_bytes()));
+                let path = replay_dir.join(fname);
+                if std::fs::write(&path, serde_json::to_string_pretty(&body).unwrap()).is_err() {
+                    harness_error("cannot write replay file");
+                }
+                rep.violations += 1;
+                rep.lines.push(format!("VIOLATION property={} replay={}", a.prop, path.display()));
+                rep.lines.push(format!("  class={} profile={} runs {}..={} of stride {} mod {} :: observed once, not reproduced by replay (signal line {:?})", class, d.profile, d.started_at, d.last_e, d.k, w, d.sig));
+            }
         }
     }
     // group by (profile, signature, class); minimise the first of each group
@@ -884,7 +923,16 @@ pub fn triage(a: &ParentArgs, sum: &mut RunSummary) -> Report {
     }
     let replay_dir = a.verif_dir.join("replays").join(&a.prop);
     let mut minimised = 0;
+    let mut hang_groups = 0;
     for ((profile, sig, class), fs) in groups {
+        if class == "hang" {
+            // every evaluation of a hanging case costs the full hang limit
+            hang_groups += 1;
+            if hang_groups > 2 {
+                *sum.stats.entry("hang_groups_not_reported".into()).or_insert(0) += 1;
+                continue;
+            }
+        }
         // start from the smallest failing instance of the group
         let first = fs
             .iter()
@@ -901,6 +949,10 @@ pub fn triage(a: &ParentArgs, sum: &mut RunSummary) -> Report {
         };
         // the violation must reproduce in a fresh process before anything is believed
         let (c0, at0, d0) = judge.eval(&start.to_json());
+        // A process death can look different from inside a fresh process (a run that was killed
+        // from outside while it burnt memory hangs there, say). The fresh verdict is the one a
+        // replay will show, so it is the one reported; "passes in a fresh process" stays an error.
+        let class = if c0 != class && c0 != "ok" && !c0.starts_with("harness-") && class.starts_with("crash-") { c0.clone() } else { class };
         if c0 != class {
             harness_error(&format!(
                 "violation does not reproduce in a fresh process: property {} class {} (fresh process says {}) check {}",
